@@ -187,6 +187,20 @@ theorem edge_monotone_between_candidates (o : Obj) (j : Nat) (hs : SqrtOk o j) (
     (hno : ∀ r ∈ statRoots (3 * coefA o.N o.x o.y j) (2 * coefB o.N o.x o.y j) (coefC o.N o.x o.y j),
       o.x j + r ≤ u ∨ v ≤ o.x j + r) : MonoOn o j u v := monoOn_between_roots o j hs u v hno
 
+/-- the `A = 0` branch of `Stationary_Values` (edge piece exactly a parabola): the single root is the vertex `−C/B` … -/
+theorem statRoots_parabola (B C : Rat) (hB : B ≠ 0) : statRoots 0 B C = [-C / B] := by
+  unfold statRoots; simp [hB]
+
+/-- … where the piece takes the value `d − c²/(4b)`; the candidate is `prefactor` times it (`Obj.stationaryValues` multiplies
+    every value by the prefactor, whichever branch found the root) -/
+theorem parabola_vertex_value (b c d : Rat) (hb : b ≠ 0) : segEval 0 b c d (-c / (2 * b)) = d - c ^ 2 / (4 * b) := by
+  unfold segEval; field_simp; ring
+
+/-- every stationary candidate is the curve (prefactor included) at an abscissa strictly inside the window it was asked for —
+    for the right zone the window starts at `max(x_1, x_{N-1})`, so no candidate lies outside `[x_1,x_2]` -/
+theorem stationary_inside_window (o : Obj) (j : Nat) (lo hi s : Rat) (h : s ∈ o.stationaryValues j lo hi) :
+    ∃ w, lo < w ∧ w < hi ∧ s = o.cubicAt j w := mem_stationaryValues h
+
 /-- **the extrema are attained on `[x1,x2]`**: each result is the value `Interpolate` returns at some
     abscissa of the interval — a limit, a knot between the limits, or (fix 51ca844) a stationary point of the
     continued edge cubic strictly between an extrapolated limit and the end knot — for all limits `Locate`
